@@ -329,6 +329,8 @@ class MHist(Monitor):
         self.flagged = set()
         self.failure_seen = {}
         self.bal = {}
+        self.api_seen = 0
+        self.reuse = {}
 
     def _flag(self, w, arn, kind, detail, **extra):
         if (arn, kind) in self.flagged:
@@ -341,13 +343,40 @@ class MHist(Monitor):
         if not engs:
             return
         e = engs[0]
+        # what GetExecutionHistory answered (scripted API reads): the stored list, or exactly its reverse; reading changes nothing
+        while self.api_seen < len(w.api_log):
+            a = w.api_log[self.api_seen]; self.api_seen += 1
+            if a["action"] != "GetExecutionHistory" or a.get("body") is None:
+                continue
+            arn = (a.get("params") or {}).get("executionArn")
+            stored = e.execution_history.get(arn)
+            if stored is None:
+                if a["status"] != 400 or a.get("type") != "ExecutionDoesNotExist":
+                    self._flag(w, arn, "api_history_differs", "GetExecutionHistory of an execution without history -> HTTP %s %s" % (a["status"], a.get("type")), what="missing")
+                continue
+            stored = [dict(x) for x in stored]
+            got = a["body"].get("events") if isinstance(a["body"], dict) else None
+            rev = bool((a.get("params") or {}).get("reverseOrder"))
+            ids = lambda evs: [x.get("id") for x in evs or []]
+            want = sorted(ids(stored), reverse=rev)
+            if a["status"] != 200 or got is None or ids(got) != want:
+                self._flag(w, arn, "api_history_differs", "GetExecutionHistory(reverseOrder=%s) -> HTTP %s ids %s, the history holds ids %s" % (rev, a["status"], ids(got), ids(stored)), what="reverse" if rev else "forward")
+            elif [x.get("type") for x in got] != [x.get("type") for x in sorted(stored, key=lambda x: x.get("id"), reverse=rev)]:
+                self._flag(w, arn, "api_history_differs", "GetExecutionHistory(reverseOrder=%s) event types differ from the stored history" % rev, what="types")
         for arn in list(e.execution_history.keys()):
             h = e.execution_history[arn]
             n = len(h)
             done = self.checked.get(arn, 0)
             if n < done:
-                self._flag(w, arn, "history_shrank", "history went from %d to %d events" % (done, n))
-                continue
+                if arn in self.term and len(MViews.starts_of(w, arn)) > 1 and self.reuse.get(arn, 0) + 1 < len(MViews.starts_of(w, arn)):
+                    # the scenario starts this execution name again after its first run has ended: a new history begins
+                    self.reuse[arn] = self.reuse.get(arn, 0) + 1
+                    for dct in (self.checked, self.term, self.open, self.last_ts, self.top, self.failure_seen, self.bal):
+                        dct.pop(arn, None)
+                    done = 0
+                else:
+                    self._flag(w, arn, "history_shrank", "history went from %d to %d events" % (done, n))
+                    continue
             if n == done:
                 continue
             rec = e.executions.get(arn)
@@ -466,6 +495,7 @@ class MViews(Monitor):
         self.last = {}
         self.first = {}
         self.count = {}
+        self.runs = {}
         self.flagged = set()
 
     def _flag(self, w, arn, kind, detail, **extra):
@@ -474,11 +504,27 @@ class MViews(Monitor):
         self.flagged.add((arn, kind))
         self.flag(w, kind, detail, arn, None, **extra)
 
+    @staticmethod
+    def starts_of(w, arn):
+        return [s_ for s_ in list(w.sc.get("starts", [])) + [c for c in w.sc.get("script", []) if c.get("op") == "start"]
+                if arn and arn.endswith(":%s:%s" % (s_.get("machine"), s_.get("name")))]
+
+    def reused(self, w, arn):
+        return len(self.starts_of(w, arn)) > 1
+
     def on_note(self, w, note):
         b = note["body"] or {}
         d = b.get("detail") or {}
         arn = d.get("executionArn")
         st = d.get("status")
+        prev = self.last.get(arn)
+        if st == "RUNNING" and prev is not None and prev.get("status") in TERMINAL and self.reused(w, arn):
+            # the name is used again after the first run ended (scripted): a new run begins, judged on its own
+            self.first.pop(arn, None)
+            for k0 in [k0 for k0 in self.count if k0[0] == arn]:
+                del self.count[k0]
+        if st == "RUNNING":
+            self.runs[arn] = self.runs.get(arn, 0) + 1
         self.last[arn] = d
         k = (arn, st)
         self.count[k] = self.count.get(k, 0) + 1
@@ -511,8 +557,9 @@ class MViews(Monitor):
             if first.get(f) != d.get(f):
                 self._flag(w, arn, "notifications_disagree", "%s: %r in the %s notification, %r in the %s notification" % (f, first.get(f), first.get("status"), d.get(f), st), what=f)
         # ... and the input is the one the execution was started with
-        for s_ in list(w.sc.get("starts", [])) + [c for c in w.sc.get("script", []) if c.get("op") == "start"]:
-            if arn and arn.endswith(":%s:%s" % (s_.get("machine"), s_.get("name"))) and "input" in s_:
+        mine = self.starts_of(w, arn)
+        for s_ in mine[max(0, min(self.runs.get(arn, 1), len(mine)) - 1):][:1]:
+            if "input" in s_:
                 try:
                     got = json.loads(d.get("input"))
                 except Exception:
@@ -569,7 +616,7 @@ class MViews(Monitor):
                     self._flag(w, None, "instances_disagree", "executions seen through two instances differ")
 
     def state(self):
-        return [sorted((str(a), d.get("status")) for a, d in self.last.items()), sorted(self.flagged)]
+        return [sorted((str(a), d.get("status")) for a, d in self.last.items()), sorted(self.flagged), sorted((str(a), n) for a, n in self.runs.items())]
 
 # ------------------------------------------------------------------------------------------------------
 class MFail(Monitor):
